@@ -22,7 +22,7 @@ MANIFEST = dict(
     note="Same bounds as the borrowed corpora (quick tiers). Real asyncio event loop for the asynchronous half.",
 )
 BOUNDS = {
-    'quick': {'server': 'objects: jsonrpc in {absent,int,str} x id in K x method in {absent,int,str} x params in K; arrays of 0..2 elements x max_batch_size {unset, symbolic}; loader outcomes; 21 middleware stacks x 7 handler tables x 5 request kinds',
+    'quick': {'server': 'objects: jsonrpc in {absent,int,str} x id in K x method in {absent,int,str} x params in K; arrays of 0..2 elements x max_batch_size {unset, symbolic}; loader outcomes; 21 middleware stacks x 7 handler tables x 6 request kinds',
               'client': 'single responses with 5 id relations x result/error x strict; batch arrays of 0..3 elements for 2 calls; retry/tracer scripts with attempts 0..2 and 4-kind outcome selectors'},
     'thorough': {'server': 'objects: full K^4; arrays 0..3; 85 stacks', 'client': 'attempts 0..3'},
 }
@@ -56,7 +56,7 @@ def obligations(tier):
                 obs.append({'h': 'srv_array', 'els': list(combo), 'mbs': mbs, '_weight': 4 ** n})
     maxd = 2 if tier == 'quick' else 3
     stacks = [list(c) for n in range(0, maxd + 1) for c in it.product(c12.MW_KINDS, repeat=n)]
-    for stack, table, req in it.product(stacks, c12.TABLES, ('ok', 'perr', 'internal', 'notif_perr', 'batch')):
+    for stack, table, req in it.product(stacks, c12.TABLES, ('ok', 'perr', 'internal', 'notif_perr', 'batch', 'batch2')):
         obs.append({'h': 'srv_chain', 'stack': stack, 'table': table, 'req': req})
     # client side
     for rel, payload, strict in it.product(('equal', 'int', 'str', 'null', 'absent'), ('result', 'error', 'garbage'), (True, False)):
@@ -181,6 +181,10 @@ def h_srv_chain(ob):
             doc = el(req, rid)
         elif req == 'notif_perr':
             doc = el('perr', None)
+        elif req == 'batch2':
+            rid2 = env.int('rid2')
+            env.assume(rid2 != rid)
+            doc = [el('perr', rid), el('perr', rid2), el('internal', None)]
         else:
             rid2 = env.int('rid2')
             env.assume(rid2 != rid)
